@@ -11,16 +11,65 @@ ASSUMPTIONS = [
     "RBAC model r = sub, obj, act / p = sub, obj, act / g = _, _ with the matcher g(r.sub, p.sub) && r.obj == p.obj && r.act == p.act under allow-override (domain variant: rbac_with_domains)",
     "role hierarchies stay within the depth bound (max_hierarchy_level = 10) for the enforce <-> implicit-permission equivalence; deeper chains are probed and not judged",
     "non-empty permission policy (the empty-policy branch of enforce is C01's subject)",
+    "get_implicit_users_for_resource[_by_domain] are judged against enforce on one-level hierarchies (no role is itself given a role; the hypothesis Flat of the _partial theorems, decided per state by the driver query `flat`); on nested hierarchies the loop is compared exactly with its Lean model and the disagreement with enforce is counted as an observation, not judged (the property text does not define this view)",
+    "no domain matching function is registered; the empty string is not used as a name (it is the wildcard of get_filtered_policy)",
 ]
 TRUSTED_EXTRA = []
 
 NAMES = ["alice", "bob", "admin", "root"]
 OBJS = ["data1", "data2"]
+DOMS3 = ["d1", "d2", "d3"]  # d3: a domain nothing is stored for
+PU_ALL = [[s, o, "read"] for s in NAMES for o in OBJS]
+PD_ALL = [[s, d, o, "read"] for s in NAMES for d in ("d1", "d2") for o in OBJS]
+NESTED = "nested-hierarchy"  # counter suffix of the observation (DESIGN.md 11.3)
+
+
+def call(e, name, *args, **kw):
+    """a query method of Enforcer or of AsyncEnforcer (a coroutine there)"""
+    import inspect
+
+    r = getattr(e, name)(*args, **kw)
+    if inspect.iscoroutine(r):
+        r = ec.run_async(r)
+    return r
+
+
+def guarded(fn):
+    try:
+        return fn()
+    except Exception as ex:  # noqa
+        return "!" + type(ex).__name__
+
+
+def probe_views(cfg, e, out):
+    """the resource-centred views, the per-domain views and the direct views, through the enforcer's own methods"""
+    dom = cfg.shape == "dom"
+    rules = PD_ALL if dom else PU_ALL
+    for u in NAMES:
+        out[f"pf:{u}"] = guarded(lambda: [list(r) for r in call(e, "get_permissions_for_user", u)])
+    for r in rules:
+        out["hp:" + "|".join(r)] = guarded(lambda: bool(call(e, "has_permission_for_user", *r)))
+    out["allroles"] = guarded(lambda: list(e.get_all_roles()))
+    if not dom:
+        for o in OBJS + ["data9", "data"]:
+            out[f"ufr:{o}"] = guarded(lambda: [list(r) for r in call(e, "get_implicit_users_for_resource", o)])
+        return
+    for d in DOMS3:
+        out[f"rbd:{d}"] = guarded(lambda: list(call(e, "get_all_roles_by_domain", d)))
+        for o in OBJS + ["data"]:
+            out[f"ufrd:{o}:{d}"] = guarded(lambda: [list(r) for r in call(e, "get_implicit_users_for_resource_by_domain", o, d)])
+        for u in NAMES:
+            out[f"pid:{u}:{d}"] = guarded(lambda: [list(r) for r in call(e, "get_permissions_for_user_in_domain", u, d)])
+            out[f"ipd:{u}:{d}:T"] = guarded(lambda: [list(r) for r in call(e, "get_implicit_permissions_for_user", u, d)])
+            out[f"ipd:{u}:{d}:F"] = guarded(lambda: [list(r) for r in call(e, "get_implicit_permissions_for_user", u, d, filter_policy_dom=False)])
+            out[f"rid:{u}:{d}"] = guarded(lambda: list(call(e, "get_roles_for_user_in_domain", u, d)))
+            out[f"uid:{u}:{d}"] = guarded(lambda: list(call(e, "get_users_for_role_in_domain", u, d)))
 
 
 def probe(cfg, e):
     """the query API of the real enforcer + the cross-checks the property states, evaluated on the implementation"""
     out = {}
+    probe_views(cfg, e, out)
     dom = cfg.shape == "dom"
     doms = ["d1", "d2"] if dom else [None]
     problems = []
@@ -30,11 +79,11 @@ def probe(cfg, e):
     for d in doms:
         dargs = () if d is None else (d,)
         for u in NAMES:
-            roles = e.get_implicit_roles_for_user(u, *dargs)
+            roles = call(e, "get_implicit_roles_for_user", u, *dargs)
             if len(set(roles)) != len(roles):
                 problems.append(("implicit-roles-duplicate", f"get_implicit_roles_for_user({u}{',' + d if d else ''}) = {roles} names a role twice"))
             out[f"implicitroles:{u}:{d}"] = sorted(roles)
-            perms = e.get_implicit_permissions_for_user(u, *dargs)
+            perms = call(e, "get_implicit_permissions_for_user", u, *dargs)
             out[f"implicitperms:{u}:{d}"] = sorted(map(tuple, perms))
             # inverse views
             direct = rm.get_roles(u, *dargs)
@@ -57,7 +106,7 @@ def probe(cfg, e):
             if x not in subjects:
                 subjects.append(x)
         for o in OBJS:
-            users = e.get_implicit_users_for_permission(o, "read")
+            users = call(e, "get_implicit_users_for_permission", o, "read")
             out[f"implicitusers:{o}"] = sorted(users)
             if len(set(users)) != len(users):
                 problems.append(("implicit-users-duplicate", f"get_implicit_users_for_permission({o},read) = {users} names a user twice"))
@@ -79,11 +128,38 @@ def lean_queries(cfg):
             qs.append(("implicitperms", u))
         for o in OBJS:
             qs.append(("implicitusers", [o, "read"]))
+        qs.append(("flat", None))
+        for o in OBJS + ["data9", "data"]:
+            qs.append(("usersforresource", o))
+        for r in PU_ALL:
+            qs.append(("hasperm", r))
     else:
         for d in ("d1", "d2"):
             for u in NAMES:
                 qs.append(("implicitroles", u, d))
+        for d in DOMS3:
+            qs.append(("flat", d))
+            qs.append(("rolesbydomain", d))
+            for o in OBJS + ["data"]:
+                qs.append(("usersforresourcedom", o, d))
+            for u in NAMES:
+                qs.append(("permsindom", u, d))
+                qs.append(("implicitpermsdom", u, d, True))
+                qs.append(("implicitpermsdom", u, d, False))
+                qs.append(("roles", "g", u, d))
+                qs.append(("users", "g", u, d))
+        for r in PD_ALL:
+            qs.append(("hasperm", r))
+    qs.append(("allroles",))
+    for u in NAMES:
+        qs.append(("permsfor", u))
     return qs
+
+
+def canon_rules(rules):
+    v = sorted(enc_rule(list(x)) for x in rules)
+    body = "~" if not v else ",".join(v)
+    return body if len(set(v)) == len(v) else "!dup:" + body
 
 
 def q_line(q):
@@ -91,7 +167,17 @@ def q_line(q):
         return "\t".join(["q", "implicitroles", enc_str(q[1]), "~" if q[2] is None else enc_str(q[2])])
     if q[0] == "implicitperms":
         return "\t".join(["q", "implicitperms", enc_str(q[1])])
-    return "\t".join(["q", "implicitusers", enc_list([enc_str(x) for x in q[1]])])
+    if q[0] == "implicitusers":
+        return "\t".join(["q", "implicitusers", enc_list([enc_str(x) for x in q[1]])])
+    if q[0] == "flat":
+        return "\t".join(["q", "flat", "~" if q[1] is None else enc_str(q[1])])
+    if q[0] in ("roles", "users"):
+        return ec.q_line(q)
+    if q[0] == "hasperm":
+        return "\t".join(["q", "hasperm", enc_list([enc_str(x) for x in q[1]])])
+    if q[0] == "implicitpermsdom":
+        return "\t".join(["q", q[0], enc_str(q[1]), enc_str(q[2]), "T" if q[3] else "F"])
+    return "\t".join(["q", q[0]] + [enc_str(x) for x in q[1:]])
 
 
 def impl_answer(rec, q):
@@ -101,7 +187,26 @@ def impl_answer(rec, q):
     if q[0] == "implicitperms":
         v = sorted({enc_rule(list(x)) for x in ex[f"implicitperms:{q[1]}:None"]})  # compared as a set
         return "~" if not v else ",".join(v)
-    return enc_list(sorted(enc_str(x) for x in ex[f"implicitusers:{q[1][0]}"]))
+    if q[0] == "implicitusers":
+        return enc_list(sorted(enc_str(x) for x in ex[f"implicitusers:{q[1][0]}"]))
+    key = {"usersforresource": lambda: f"ufr:{q[1]}", "usersforresourcedom": lambda: f"ufrd:{q[1]}:{q[2]}", "rolesbydomain": lambda: f"rbd:{q[1]}",
+           "allroles": lambda: "allroles", "permsfor": lambda: f"pf:{q[1]}", "permsindom": lambda: f"pid:{q[1]}:{q[2]}",
+           "hasperm": lambda: "hp:" + "|".join(q[1]), "implicitpermsdom": lambda: f"ipd:{q[1]}:{q[2]}:{'T' if q[3] else 'F'}",
+           "roles": lambda: f"rid:{q[2]}:{q[3]}", "users": lambda: f"uid:{q[2]}:{q[3]}"}[q[0]]()
+    v = ex[key]
+    if isinstance(v, str):
+        return v  # an exception
+    if q[0] in ("usersforresource", "usersforresourcedom"):
+        return canon_rules(v)  # a dict's keys: compared as a set, duplicates reported
+    if q[0] in ("rolesbydomain", "allroles", "roles", "users"):
+        body = enc_list(sorted(enc_str(x) for x in v))  # a set in the code
+        return body if len(set(v)) == len(v) else "!dup:" + body
+    if q[0] in ("permsfor", "permsindom"):
+        return "L" + common.enc_rules(v)  # stored order is observable
+    if q[0] == "hasperm":
+        return "T" if v else "F"
+    w = sorted({enc_rule(list(x)) for x in v})  # implicitpermsdom: compared as a set (one copy per holder)
+    return "~" if not w else ",".join(w)
 
 
 def gen(ctx, deep):
@@ -189,7 +294,34 @@ def gen(ctx, deep):
         e = rng.choice(g)
         other = rng.choice([x for x in GU if x not in g] or [e])
         jobs.append((cfg, rng.choice([[("addmany", "g", [other, other]), ("remove", "g", other)], [("remove", "g", e)], [("add", "g", other + ["x"]), ("add", "g", other + ["y"]), ("remove", "g", other + ["x"])]])))
-    return jobs
+    # one-level hierarchies (users -> roles only) with several actions: the hypothesis of the resource-centred theorems
+    for _ in range(250 if not deep else 2500):
+        users, roles = ["alice", "bob"], ["admin", "root"]
+        g = [x for x in ([u, r] for u in users for r in roles) if rng.random() < 0.5]
+        p = rng.sample([[s, o, a] for s in NAMES for o in OBJS for a in ("read", "write")], rng.randint(1, 5))
+        cfg = ec.Config("rbac", adapter=True, watcher=None, initial={"p": p, "g": g, "g2": []})
+        cfg.tag = {"depth_ok": True}
+        jobs.append((cfg, [("remove", "p", ["nobody", "x", "y"])]))
+        gd = [x for x in ([u, r, d] for u in users for r in roles for d in ("d1", "d2")) if rng.random() < 0.4]
+        if rng.random() < 0.3:
+            gd.append(["admin", "root", rng.choice(["d1", "d2"])])  # a role that is a plain user in the other domain
+        if rng.random() < 0.2:
+            gd.append([rng.choice(users), "d2", "d1"])  # a role named like a domain
+        if rng.random() < 0.2:
+            gd.append(["d2", rng.choice(roles), "d1"])  # a user named like a domain
+        pd = rng.sample([[s, d, o, a] for s in NAMES + ["d2"] for d in ("d1", "d2") for o in OBJS for a in ("read", "write")], rng.randint(1, 6))
+        cfg = ec.Config("dom", adapter=True, watcher=None, initial={"p": pd, "g": gd, "g2": []})
+        cfg.tag = {"depth_ok": True}
+        jobs.append((cfg, [("remove", "p", ["nobody", "d1", "x", "y"])]))
+    # the same policies and histories on AsyncEnforcer (the query API is written a second time there)
+    twins = []
+    for cfg, hist in rng.sample(jobs, min(len(jobs), 400 if not deep else 5000)):
+        if any(op[0] in ("setrm",) for op in hist):
+            continue
+        c2 = ec.Config(cfg.shape, adapter=True, watcher=None, initial=cfg.initial, is_async=True)
+        c2.tag = dict(cfg.tag)
+        twins.append((c2, list(hist)))  # a list of its own: the records are keyed by the history object
+    return jobs + twins
 
 
 def run(ctx):
@@ -205,7 +337,13 @@ def run(ctx):
         "policies, plus the same policies reached through a detour (a link removed and re-added; a reload from a store without role assignments; a swapped role manager followed by a grant and a revocation; a rejected reload); for every policy: get_implicit_roles_for_user / get_implicit_permissions_for_user / get_implicit_users_for_permission of every "
         "name compared with the Lean model and with the specification (reachability by an independent bounded BFS), and on the implementation itself: "
         "enforce <-> implicit permission for every request, implicit users = non-role subjects that enforce allows (each once), get_roles/get_users "
-        "inverse; non-trivial/distinct = distinct policy"
+        "inverse; added: get_implicit_users_for_resource (rbac) / get_implicit_users_for_resource_by_domain, get_all_roles_by_domain, get_all_roles, "
+        "get_permissions_for_user, get_permissions_for_user_in_domain, has_permission_for_user (every rule of the universe), "
+        "get_implicit_permissions_for_user(u, dom, filter_policy_dom=True/False), get_roles_for_user_in_domain / get_users_for_role_in_domain, for every "
+        "name, object (and a prefix of the objects, an unknown object), domain (d1, d2 and the unused d3), each compared three ways (implementation, Lean "
+        "model, independent specification: enforce per candidate subject and action / filter of the stored rules / bounded BFS), on one-level "
+        "hierarchies with two actions, roles and users named like a domain, and on 400 of the histories repeated on AsyncEnforcer; "
+        "non-trivial/distinct = distinct policy"
     )
     res.exhaustive = ctx["deep"]
     return res
@@ -236,23 +374,55 @@ def _stage(ctx, res, deep):
         if id(hist) not in recs:
             continue
         rec, case = recs[id(hist)]
+        flat = {}
         for k, q in enumerate(qs):
+            if q[0] == "flat":
+                flat[q[1]] = parse_ms(answers[start + k])[0] == "T"
+        res.count(f"{cfg.shape}:{'async' if cfg.is_async else 'sync'}:{'one-level' if all(flat.values()) else 'nested or unsynced'}")
+        for k, q in enumerate(qs):
+            if q[0] == "flat":
+                continue
             model, spec = parse_ms(answers[start + k])
             impl = impl_answer(rec, q)
             res.evaluations += 1
             if model == "!fuel":
                 raise common.Infra("implicitLoop ran out of fuel")
+            where = f"{cfg.shape}{' (AsyncEnforcer)' if cfg.is_async else ''} policy p={rec['pol']['p']} g={rec['pol']['g']}"
+            if q[0] in ("usersforresource", "usersforresourcedom") and not flat[q[2] if q[0] == "usersforresourcedom" else None]:
+                # outside the hypotheses of the _partial theorems (a role that is given a role): the loop itself is compared
+                # exactly; the disagreement with enforce is the open finding F31
+                if impl != model:
+                    res.disagree({"what": f"query {q}: impl {impl} vs model {model}", "case": case})
+                elif impl != spec:
+                    # not judged: C15's statement does not say what this view returns on nested hierarchies (it is only
+                    # named among the observation points); recorded as an observation in DESIGN.md 11.3
+                    res.count(f"observation:{q[0]}:{NESTED}:differs-from-enforce")
+                continue
             if model != spec:
                 res.model_vs_spec.append({"case": case, "query": q, "model": model, "spec": spec})
             if impl != model:
                 res.disagree({"what": f"query {q}: impl {impl} vs model {model}", "case": case})
             if impl != spec:
-                res.violation({"signature": f"C15:{cfg.shape}:{q[0]}", "what": f"{cfg.shape} policy p={rec['pol']['p']} g={rec['pol']['g']}: {q} answers {impl}, the specification (reachability over the assignments) gives {spec}", "case": case, "expected": spec, "observed": impl, "model_text": ec.TEXT[cfg.shape]})
+                res.violation({"signature": f"C15:{cfg.shape}:{q[0]}", "what": f"{where}: {q} answers {impl}, the specification ({SPEC_WORDS.get(q[0], 'reachability over the assignments')}) gives {spec}", "case": case, "expected": spec, "observed": impl, "model_text": ec.TEXT[cfg.shape]})
+
+
+SPEC_WORDS = {
+    "usersforresource": "the non-role subjects that enforce allows, per action",
+    "usersforresourcedom": "the subjects that are not a role of the domain and that enforce allows in that domain, per action",
+    "rolesbydomain": "the roles given to some subject in that domain",
+    "allroles": "the roles given to some subject",
+    "permsfor": "the stored rules of that subject, in order",
+    "permsindom": "the stored rules of that subject in that domain, in order",
+    "hasperm": "membership of the stored rules",
+    "implicitpermsdom": "the stored rules of the user and of every role reachable in that domain",
+    "roles": "the assignments recorded for the domain",
+    "users": "the assignments recorded for the domain",
+}
 
 
 def replay(obj):
     c = obj["case"]["config"]
-    cfg = ec.Config(c["shape"], adapter=c["adapter"], watcher=c["watcher"], initial=c["initial"])
+    cfg = ec.Config(c["shape"], adapter=c["adapter"], watcher=c["watcher"], initial=c["initial"], is_async=c.get("async", False))
     cfg.tag = {"depth_ok": True}
     hist = [tuple(o) for o in obj["case"]["history"]]
     out = ec.run_history(cfg, hist, [], fresh_oracle=False, extra="c15")
